@@ -573,10 +573,14 @@ def worker_C16(payload):
         if bad.any():
             i, j = np.argwhere(bad)[0]
             cname = names[j] if names else "col%d" % j
+            if cname == "FreshYield" and not sim.crop_params[cfg["crop"]["name"]].get("YldWC") and not cfg["crop"].get("kwargs", {}).get("YldWC"):
+                cname = "FreshYield:YldWC0"
             viol.append(V("C16:nonfinite:%s" % cname, "non-finite value %r in table %s, row %d, column %s" % (a[i, j], nm, i, cname), step=int(i)))
     for r in t["final"]:
         for j in (4, 5, 6, 7):
             if not np.isfinite(float(r[j])):
+                if j == 5 and not sim.crop_params[cfg["crop"]["name"]].get("YldWC"):
+                    break      # same finding as the FreshYield column above
                 viol.append(V("C16:nonfinite:summary%d" % j, "non-finite value in the seasonal summary: %r" % (r,)))
                 break
     if not m._clock_struct.model_is_finished:
